@@ -307,7 +307,7 @@ def _tasks_for(pid, tier):
         return ds("io", 6, allv, jobs=5) + ds("io", 1, full, mode="db", jobs=8, env={"VX_IO_FULL": 1})
     if pid == "C16":
         allv = variants("cancel")           # 4 source kinds x 8 life-cycle points, variant = kind * 8 + point
-        small = [v for v in allv if v % 8 in (0, 1, 5, 6, 7) or v in (2, 3)]
+        small = [v for v in allv if v < 32 and (v % 8 in (0, 1, 5, 6, 7) or v in (2, 3))]     # 32, 33: sibling source on the same descriptor
         if q:
             return ds("cancel", 1, [v for v in allv if v not in small], jobs=6) + ds("cancel", 2, small, jobs=6)
         return ds("cancel", 2, [v for v in allv if v not in small], jobs=8) + ds("cancel", 3, small, jobs=8)
